@@ -654,6 +654,33 @@ def same_instant(year=2020, doy=366, ms=86399999):
     return with_product(run, level="1.5", n=2, p=3, pols=("HH",), image_kw={"line": line}, leader_kw={"n_att": 1, "overrides": ov})
 
 
+def line_stamps(us=(86399999999, 1, 43200123456)):
+    """level 1.1: the per-line millisecond and microsecond stamps come out with every stored digit (no unit/dtype change drops sub-ms digits)"""
+    import datetime
+
+    import ceos_alos2
+
+    day = datetime.datetime(2020, 2, 29)
+    want_us = [np.datetime64(day + datetime.timedelta(microseconds=u), "ns") for u in us]
+    want_ms = [np.datetime64(day + datetime.timedelta(milliseconds=u // 1000), "ns") for u in us]
+
+    def run(root, datas):
+        tree = ceos_alos2.open_alos2(root, backend_options={"use_cache": False})
+        ds = tree["imagery/HH"]
+        bad = {}
+        for name, want in (("sensor_acquisition_date_microseconds", want_us), ("sensor_acquisition_date", want_ms)):
+            v = ds[name].values
+            got = [np.datetime64(x, "ns") for x in v]
+            if got != want or not np.issubdtype(v.dtype, np.datetime64):
+                bad[name] = {"got": [str(x) for x in got], "written": [str(x) for x in want], "dtype": str(v.dtype)}
+        return {"reproduced": bool(bad), "detail": bad}
+
+    def line(i):
+        return {"sensor_acquisition_date": {"year": 2020, "day_of_year": 60, "milliseconds": us[i] // 1000}, "sensor_acquisition_date_microseconds": us[i]}
+
+    return with_product(run, level="1.1", n=len(us), p=2, pols=("HH",), image_kw={"line": line})
+
+
 def fail_stop(level="1.5", n=4, p=3):
     """every truncation of the image at record boundaries and +-1 byte, truncated leader / volume directory, every single missing file"""
     import ceos_alos2
